@@ -318,6 +318,25 @@ theorem admt_isotropic_laplacian_verdict :
      have := (h ℚ 1 1 1 0 0 1 (by norm_num) (by norm_num)).1
      norm_num [coeffs, Cherab.Admt.sq] at this)
 
+/-- **scale invariance**: the coefficients depend on the flux map only through the *direction* of ∇ψ — ψ and `c·ψ`
+(`c ≠ 0`, either sign, any magnitude) describe the same flux surfaces and give the same `cx, cy, cxx, cxy, cyy`.
+(All derivatives of `c·ψ` are `c` times those of ψ because the operators are linear.) -/
+theorem admt_coefficients_scale_invariant {β : Type} [Field β]
+    (c an R px py pxx pxy pyy dparx dpary dperpx dperpy : β) (hc : c ≠ 0) (ha : an ≠ 0) (hR : R ≠ 0)
+    (hN : px * px + py * py ≠ 0) :
+    coeffs an R (c * px) (c * py) (c * pxx) (c * pxy) (c * pyy) dparx dpary dperpx dperpy =
+      coeffs an R px py pxx pxy pyy dparx dpary dperpx dperpy := by
+  have hN' : px ^ 2 + py ^ 2 ≠ 0 := by rwa [pow_two, pow_two]
+  have hN'' : py ^ 2 + px ^ 2 ≠ 0 := by rwa [add_comm]
+  have hN''' : py * py + px * px ≠ 0 := by rwa [add_comm]
+  have hS : c * px * (c * px) + c * py * (c * py) ≠ 0 := by
+    have : c * px * (c * px) + c * py * (c * py) = c * c * (px * px + py * py) := by ring
+    rw [this]; exact mul_ne_zero (mul_ne_zero hc hc) hN
+  have hS' : c * py * (c * py) + c * px * (c * px) ≠ 0 := by rwa [add_comm]
+  simp only [coeffs, Cherab.Admt.sq, Coeffs.mk.injEq]
+  push_cast
+  refine ⟨?_, ?_, ?_, ?_, ?_⟩ <;> (field_simp; try ring)
+
 /-- **finite**: every divisor met while evaluating the coefficients is one of `anisotropy`, `|∇ψ|²`, `R`;
 none vanishes under the property's hypotheses (the list is generated from the `/` nodes of the source) -/
 theorem admt_denominators_nonzero {β : Type} [Field β]
